@@ -58,7 +58,11 @@ theorem maskOf_pos (S : List Nat) (d : Nat) (hd : d < 7) (hm : d ∈ S) : 2 ≤ 
   rcases this with rfl | rfl | rfl | rfl | rfl | rfl | rfl <;> simp [hm] <;> omega
 
 theorem inChain_bs2d (n : Int) : inChain "bit_summary_to_days" n = decide (1 < n ∧ n < 255) := by
-  simp [inChain, Gen.chainGuards, cmpOp, List.find?]
+  have h : inChain "bit_summary_to_days" n = (decide (2 ≤ n) && decide (n ≤ 254)) := by
+    simp [inChain, Gen.chainGuards, cmpOp, List.find?]
+  rw [h, Bool.eq_iff_iff]
+  simp only [Bool.and_eq_true, decide_eq_true_eq]
+  omega
 
 theorem fmt02x_hex2 : ∀ n < 256, fmt02x n = hex2 n := by decide +kernel
 
